@@ -76,13 +76,15 @@ def writeStep {V : Type} (c : Cfg) (t : Nat) (v : Rec → V) (e : StepEnd) (log 
   fun r row => if row = t ∧ tracked c r = true ∧ written e (phaseOf r) = true then some (v r) else log r row
 
 /-- a run: the values of every record at every step, and how each step ends; the run stops at the
-    first step that does not end `ok`.  Returns the log and the number of completed steps. -/
-def runLog {V : Type} (c : Cfg) : List ((Rec → V) × StepEnd) → Nat → Log V → Log V × Nat
+    first step that does not end `ok`.  Rows are indexed by temporal unit: a step at time `t` writes row
+    `t` and the next step is at time `t + dt` (`dt = n_temporal_units_by_step`; rows in between keep the
+    fill value).  Returns the log and the time reached. -/
+def runLog {V : Type} (c : Cfg) (dt : Nat) : List ((Rec → V) × StepEnd) → Nat → Log V → Log V × Nat
   | [], t, log => (log, t)
   | (v, e) :: rest, t, log =>
     let log' := writeStep c t v e log
     match e with
-    | .ok => runLog c rest (t + 1) log'
+    | .ok => runLog c dt rest (t + dt) log'
     | _ => (log', t)
 
 end Boario.Records
